@@ -7,7 +7,9 @@ From PV Require Import Common.Util Gen.StateTrigConsts Trig.Notify Trig.StateTri
 
 (* a run as reported by the generated function: its kwargs; the decorator is identified by the harness (only decorator of
    the function, or the pv_t kwarg) *)
-Record orun := mkORun { o_fn : N; o_tid : N; o_kw : list (N * kwval) }.
+(* [o_res]: the kwargs the same run reported after each of the [o_nsusp] suspension points (task.sleep) of its function -
+   runs of one function overlap in bursts, and every run must keep the arguments of its own event for its whole life *)
+Record orun := mkORun { o_fn : N; o_tid : N; o_kw : list (N * kwval); o_nsusp : N; o_res : list (list (N * kwval)) }.
 
 Record scase := {
   sc_legacy : bool;
@@ -32,7 +34,8 @@ Definition kw_eqb (a b : list (N * kwval)) : bool :=
   forallb (fun k => option_eqb kwval_eqb (assoc k a) (assoc k b)) (map fst a ++ map fst b).
 
 Definition run_matches (m : run) (o : orun) : bool :=
-  N.eqb (r_fn m) (o_fn o) && N.eqb (r_tid m) (o_tid o) && kw_eqb (r_kw m) (o_kw o).
+  N.eqb (r_fn m) (o_fn o) && N.eqb (r_tid m) (o_tid o) && kw_eqb (r_kw m) (o_kw o)
+  && (N.eqb (N.of_nat (length (o_res o))) (o_nsusp o) && forallb (kw_eqb (r_kw m)) (o_res o)).
 Fixpoint runs_match (ms : list run) (os : list orun) : bool :=
   match ms, os with
   | [], [] => true
